@@ -5,12 +5,14 @@
    item:   i:<ns>:<module>                      import statement in namespace <ns>
            r:<ns>:<n|g|p|gp>:<cond>             rule number j (j = count of earlier rule items), named r<j>
    cond:   atom (('&' | '|') atom)*             left-associative, the harness parenthesises the same way
-   atom:   T | F | U | z<N> (filesize > N) | s<hex> ($s) | n<hex> (not $s) | c<N>_<hex> (#s > N) | r<j> (rule j) | x<j> (not rule j)
+   atom:   T | F | U | z<N> (filesize > N) | y<N> (filesize < N) | s<hex> ($s) | n<hex> (not $s) | c<N>_<hex> (#s > N) | r<j> (rule j) | x<j> (not rule j)
            every s/n/c atom defines one more hex string of its rule ($s0, $s1, … within the rule; global index =
            definition order over all rules); upper case S/N/C: the string carries the `private` modifier
    L:      YR_MAX_STRING_MATCHES of the library the harness is linked with (default 1000000)
    buf:    scan number k (k-th script) reads buffer number k mod #buffers
-   script: word over c/a/e ("-" = empty): answer to the k-th message, CONTINUE afterwards
+   script: word over c/a/e ("-" = empty): answer to the k-th message, CONTINUE afterwards; prefix "b:" / "B:": the scan goes
+           through yr_scanner_scan_mem_blocks with a one-block iterator without / with a file_size function (without:
+           `filesize` is undefined); "p": a process scan of a helper process at this point of the history (output "PROC" only)
    x:      other scan flags the harness passes along (FAST_MODE, NO_TRYCATCH); no effect on the protocol
    f:      bit0 = REPORT_RULES_MATCHING, bit1 = REPORT_RULES_NOT_MATCHING (api=d: set_flags never called)
    output: <id> <msg> … rc=<code> [| <msg> … rc=<code>]      msg: TM:<ns>.<rule>.$s<k> IMP:<m> MOD:<m> M:<ns>.<rule> N:<ns>.<rule> FIN -/
@@ -37,14 +39,15 @@ structure Prog where
   strs : List Str          -- reversed while parsing
 
 /-- atoms that define a string get the next string index (`YR_STRING.idx`: definition order) -/
-def parseAtom (buf : List UInt8) (ridx : Nat) (strs : List Str) (a : String) : Option (SCond × List Str) :=
+def parseAtom (fs : Option Nat) (ridx : Nat) (strs : List Str) (a : String) : Option (SCond × List Str) :=
   let nloc := (strs.filter (·.rule == ridx)).length
   let idx := strs.length
   match a.toList with
   | ['T'] => some (.lit true, strs)
   | ['F'] => some (.lit false, strs)
   | ['U'] => some (.lit false, strs)     -- `uint8(100000) == 1`: undefined ⇒ does not hold (and/or treat it as false)
-  | 'z' :: n => (String.ofList n).toNat?.map fun k => (.lit (decide (buf.length > k)), strs)
+  | 'z' :: n => (String.ofList n).toNat?.map fun k => (.lit (fileSizeAtom fs true k), strs)
+  | 'y' :: n => (String.ofList n).toNat?.map fun k => (.lit (fileSizeAtom fs false k), strs)
   | 's' :: h | 'S' :: h => (Driver.unhex (String.ofList h)).map fun p => (.str idx, ⟨p, ridx, nloc⟩ :: strs)
   | 'n' :: h | 'N' :: h => (Driver.unhex (String.ofList h)).map fun p => (.not (.str idx), ⟨p, ridx, nloc⟩ :: strs)
   | 'c' :: t | 'C' :: t =>
@@ -67,14 +70,14 @@ def splitCond (s : String) : List String × List Char :=
       else go t (c :: cur) atoms ops
   go s.toList [] [] []
 
-def parseCond (buf : List UInt8) (ridx : Nat) (strs : List Str) (s : String) : Option (SCond × List Str) :=
+def parseCond (fs : Option Nat) (ridx : Nat) (strs : List Str) (s : String) : Option (SCond × List Str) :=
   match splitCond s with
   | (a :: as, ops) => do
-      let (c0, st0) ← parseAtom buf ridx strs a
+      let (c0, st0) ← parseAtom fs ridx strs a
       let rec go (acc : SCond) (st : List Str) : List String → List Char → Option (SCond × List Str)
         | [], [] => some (acc, st)
         | b :: bs, o :: os => do
-            let (c, st') ← parseAtom buf ridx st b
+            let (c, st') ← parseAtom fs ridx st b
             go (if o = '&' then .and acc c else .or acc c) st' bs os
         | _, _ => none
       go c0 st0 as ops
@@ -84,16 +87,16 @@ def parseKind : String → Option (Bool × Bool)
   | "n" => some (false, false) | "g" => some (true, false)
   | "p" => some (false, true) | "gp" => some (true, true) | _ => none
 
-def parseItems (buf : List UInt8) : List String → Prog → Option Prog
+def parseItems (fs : Option Nat) : List String → Prog → Option Prog
   | [], p => some ⟨p.rules.reverse, p.imports.reverse, p.strs.reverse⟩
   | it :: its, p =>
     match Driver.parts it with
-    | ["i", _, m] => parseItems buf its { p with imports := m :: p.imports }
+    | ["i", _, m] => parseItems fs its { p with imports := m :: p.imports }
     | ["r", ns, k, c] => do
         let n ← ns.toNat?
         let (g, pr) ← parseKind k
-        let (cd, st) ← parseCond buf p.rules.length p.strs c
-        parseItems buf its { p with rules := ⟨n, g, pr, cd⟩ :: p.rules, strs := st }
+        let (cd, st) ← parseCond fs p.rules.length p.strs c
+        parseItems fs its { p with rules := ⟨n, g, pr, cd⟩ :: p.rules, strs := st }
     | _ => none
 
 /-- occurrences in scan order: the automaton reports an occurrence when it has consumed its last byte
@@ -103,6 +106,14 @@ def events (buf : List UInt8) (strs : List Str) : List Nat :=
     strs.zipIdx.filterMap fun (st, i) =>
       let l := st.pat.length
       if l ≠ 0 ∧ l ≤ e ∧ (buf.drop (e - l)).take l == st.pat then some i else none
+
+/-- kind of a scan and its callback script: "p" = process scan (a step of the history, not modelled),
+    "b:<script>" / "B:<script>" = caller's block iterator without / with a file_size function, else `yr_scanner_scan_mem` -/
+def splitKind (s : String) : Char × String :=
+  if s == "p" then ('p', "-")
+  else if s.startsWith "b:" then ('b', (s.drop 2).toString)
+  else if s.startsWith "B:" then ('B', (s.drop 2).toString)
+  else ('m', s)
 
 def parseScript (s : String) : Option (List Ret) :=
   if s == "-" then some [] else
@@ -139,13 +150,15 @@ def handle (line : String) : String :=
       let bufs ← ((← kv rest "buf").splitOn "/").mapM Driver.unhex
       let its := ((← kv rest "items").splitOn ";").filter (· ≠ "")
       -- scan number k reads buffer number k mod #buffers; atoms are decided per buffer
-      let progs ← bufs.mapM fun b => parseItems b its ⟨[], [], []⟩
       let limit := ((kv rest "L").bind (·.toNat?)).getD 1000000      -- YR_MAX_STRING_MATCHES of the build
-      let scripts ← ((← kv rest "scripts").splitOn "/").mapM parseScript
+      let kinds := ((← kv rest "scripts").splitOn "/").map splitKind
+      let scripts ← kinds.mapM fun ks => parseScript ks.2
       let fl := if api == "d" then defaultFlags else setFlags (f % 2 == 1) (f / 2 % 2 == 1)
-      let outs ← scripts.zipIdx.mapM fun (s, k) => do
-        let p ← progs[k % progs.length]?
+      let outs ← (kinds.zip scripts).zipIdx.mapM fun ((ks, s), k) => do
         let b ← bufs[k % bufs.length]?
+        if ks.1 == 'p' then pure "PROC" else
+        -- atoms are decided per scan: by the buffer and by whether the scan has a file size
+        let p ← parseItems (scanFileSize (ks.1 != 'b') b.length) its ⟨[], [], []⟩
         pure (showScan p.rules p.strs (fullScan limit (events b p.strs) p.rules p.imports fl s))
       pure (" | ".intercalate outs)
     id ++ " " ++ res.getD "BADCASE"
